@@ -483,7 +483,8 @@ class SubCheck:
 
     def __init__(self, name, oracle=None, gen=None, enum=None, run=None,
                  quick=(1, 100), thorough=(8, 1000), regions=None,
-                 flavour="plain", timeout=(600, 7200), doc=""):
+                 flavour="plain", timeout=(600, 7200), doc="",
+                 exhaustive=("quick", "thorough")):
         self.name = name
         self.oracle = oracle
         self.gen = gen
@@ -495,6 +496,7 @@ class SubCheck:
         self.flavour = flavour
         self.timeout = timeout
         self.doc = doc
+        self.exhaustive = exhaustive   # tiers whose enumeration is complete
 
     def plan(self, tier):
         return self.quick if tier == "quick" else self.thorough
@@ -503,8 +505,11 @@ class SubCheck:
         if self.run is not None:
             return self.run(ctx)
         if self.enum is not None:
-            return run_enum(ctx, self.enum(ctx.tier), self.oracle,
-                            self.regions, cap=ctx.n)
+            run_enum(ctx, self.enum(ctx.tier), self.oracle,
+                     self.regions, cap=ctx.n)
+            if ctx.tier not in self.exhaustive:
+                ctx.exhaustive = False
+            return None
         g = self.gen() if callable(self.gen) and not isinstance(
             self.gen, st.SearchStrategy) else self.gen
         return run_cases(ctx, g, self.oracle, ctx.n, self.regions)
